@@ -144,7 +144,7 @@ def g1_generation_guard(prog):
     return r
 
 
-@rule('G2', props=['C02'], floor=1)
+@rule('G2', props=['C02', 'C11', 'C01'], floor=1)
 def g2_generation_bump(prog):
     """Slot::activate_unchecked assigns `generation` a value computed from the old generation by adding
     a non-zero constant (wrapping)."""
@@ -171,6 +171,13 @@ def g2_generation_bump(prog):
         d = pathsem.lin(st['value']) - pathsem.lin(st['loc'])
         if not (d.is_const() and d.const != 0):
             bad = bad or st
+        # the generation space wraps by design: an overflow-checked `+` panics at u64::MAX in builds with overflow
+        # checks (a deserialised world may carry any generation), where wrapping_add carries on
+        chk = [t for t in pathsem.subterms(st['value']) if isinstance(t, tuple) and t[0] == 'bin' and t[1] in ('Add', 'Sub', 'Mul', 'AddWithOverflow', 'SubWithOverflow', 'AddUnchecked')
+               and pathsem.mentions(t, lambda u: pathsem.is_field_of(u, 'Slot', gen))]
+        if chk:
+            r.viol('G2', 'checked-arithmetic', f.loc(st['ln']), 'the generation is bumped with overflow-checked arithmetic (%s): at the maximum generation this panics (or is UB for unchecked_add) instead of wrapping' % pathsem.tstr(chk[0])[:80])
+            return r
     if bad is not None:
         r.viol('G2', 'not-a-bump', f.loc(bad['ln']), 'write to self.generation (%s) is not old generation + non-zero constant' % pathsem.tstr(bad['value']))
     return r
@@ -179,7 +186,7 @@ def g2_generation_bump(prog):
 SHRINKERS = ('pop', 'truncate', 'remove', 'swap_remove', 'drain', 'clear', 'split_off', 'retain', 'retain_mut', 'dedup', 'dedup_by', 'dedup_by_key', 'set_len', 'resize', 'resize_with')
 
 
-@rule('A1', props=['C02', 'C13'], floor=3)
+@rule('A1', props=['C02', 'C13', 'C16', 'C10'], floor=3)
 def a1_slots_never_shrink(prog):
     """Slots are never removed from the allocator (generations must survive): no length-reducing Vec
     method is called on `Allocator.slots` except `clear` immediately refilled in clone_from, and the
@@ -207,7 +214,7 @@ def a1_slots_never_shrink(prog):
     return r
 
 
-@rule('P8', props=['C10', 'C02', 'C05', 'C13'], floor=4)
+@rule('P8', props=['C10', 'C02', 'C05', 'C13', 'C16'], floor=4)
 def p8_clone_remap(prog):
     """Allocator::{clone, clone_from} produce slots only through Slot::clone_with_new_identifier; the
     identifier of the cloned location comes from identifier_map; no wholesale Vec<Slot> clone."""
